@@ -79,6 +79,7 @@ package twcc
 //@   modifies c.deltas, c.hasLargeDelta, c.hasDifferentTypes
 //@   ensures inv: chunkInv(c)
 //@   ensures room: len(c.deltas) < 7
+//@   ensures progress: len(c.deltas) < old(len(c.deltas))
 //@   ensures run_length: !old(c.hasDifferentTypes) ==> typeis(result, "*rtcp.RunLengthChunk") && len(c.deltas) == 0
 //@        && as(result, "*rtcp.RunLengthChunk").PacketStatusSymbol == old(c.deltas[0]) && as(result, "*rtcp.RunLengthChunk").RunLength == uint16(old(len(c.deltas)))
 //@   ensures one_bit: old(c.hasDifferentTypes) && old(len(c.deltas)) == 14 ==> typeis(result, "*rtcp.StatusVectorChunk") && len(c.deltas) == 0
@@ -137,3 +138,34 @@ package twcc
 //@   loop 1 invariant count: f.sequenceNumberCount == old(f.sequenceNumberCount) + (f.nextSequenceNumber - old(f.nextSequenceNumber))
 //@   loop 1 invariant untouched: f.lastTimestampUS == old(f.lastTimestampUS) && f.len == old(f.len) && f.deltas == old(f.deltas) && f.baseSequenceNumber == old(f.baseSequenceNumber)
 //@   loop 1 decreases sequenceNumber - f.nextSequenceNumber
+//@
+//@ func (*feedback).getRTCP
+//@   requires inv: fbInv(f) && fbBounds(f) && f.rtcp != nil
+//@   requires fresh_packet: len(f.rtcp.PacketChunks) == 0 && len(f.chunks) < (1 << 30)
+//@   requires fits_rtcp_length_field: 2 * len(f.chunks) + 2 * len(f.lastChunk.deltas) + f.len < 200000
+//@   modifies *
+//@   ensures same_object: result == old(f.rtcp)
+//@   ensures status_count: result.PacketStatusCount == old(f.sequenceNumberCount) && result.BaseSequenceNumber == old(f.baseSequenceNumber)
+//@   ensures reference_time: result.ReferenceTime == uint32(old(f.refTimestamp64MS))
+//@   ensures all_statuses_encoded: len(f.lastChunk.deltas) == 0
+//@   ensures one_delta_per_received: len(result.RecvDeltas) == old(len(f.deltas))
+//@   ensures deltas_in_order: forall j int :: 0 <= j && j < old(len(f.deltas)) ==> result.RecvDeltas[j] == old(&f.deltas[j])
+//@   ensures declared_length: int(result.Header.Length) * 4 + 4 >= 20 + 2 * len(result.PacketChunks) + old(f.len)
+//@        && int(result.Header.Length) * 4 + 4 < 20 + 2 * len(result.PacketChunks) + old(f.len) + 4
+//@   ensures padding_flag: result.Header.Padding == ((20 + 2 * len(result.PacketChunks) + old(f.len)) % 4 != 0)
+//@   ensures packet_type: result.Header.Count == 15 && result.Header.Type == 205
+//@   loop 1 opt noautoframe
+//@   loop 1 invariant chunk: chunkInv(&f.lastChunk) && f.rtcp == old(f.rtcp) && f.len == old(f.len) && f.deltas == old(f.deltas) && len(f.rtcp.PacketChunks) == 0
+//@   loop 1 invariant rest: f.rtcp.PacketStatusCount == old(f.sequenceNumberCount) && f.rtcp.BaseSequenceNumber == old(f.baseSequenceNumber) && f.rtcp.ReferenceTime == uint32(old(f.refTimestamp64MS))
+//@   loop 1 invariant chunk_count: len(f.chunks) + len(f.lastChunk.deltas) <= old(len(f.chunks)) + old(len(f.lastChunk.deltas)) && 0 <= len(f.chunks)
+//@   loop 1 decreases len(f.lastChunk.deltas)
+//@   loop 2 opt noautoframe
+//@   loop 2 invariant pointers: forall j int :: 0 <= j && j <= rangeindex ==> f.rtcp.RecvDeltas[j] == &f.deltas[j]
+//@   loop 2 invariant shape: f.rtcp == old(f.rtcp) && f.deltas == old(f.deltas) && len(f.rtcp.RecvDeltas) == len(f.deltas) && f.len == old(f.len) && len(f.lastChunk.deltas) == 0
+//@        && f.rtcp.PacketStatusCount == old(f.sequenceNumberCount) && f.rtcp.BaseSequenceNumber == old(f.baseSequenceNumber) && f.rtcp.ReferenceTime == uint32(old(f.refTimestamp64MS))
+//@   loop 2 invariant chunk_count: len(f.rtcp.PacketChunks) <= old(len(f.chunks)) + old(len(f.lastChunk.deltas))
+//@   loop 2 decreases len(f.deltas) - rangeindex
+//@   loop 3 invariant pad: padLen >= 20 + 2 * len(f.rtcp.PacketChunks) + old(f.len)
+//@        && padLen <= 20 + 2 * len(f.rtcp.PacketChunks) + old(f.len) + (4 - (20 + 2 * len(f.rtcp.PacketChunks) + old(f.len)) % 4) % 4
+//@        && padding == ((20 + 2 * len(f.rtcp.PacketChunks) + old(f.len)) % 4 != 0) && len(f.rtcp.PacketChunks) < (1 << 31) && old(f.len) < (1 << 31)
+//@   loop 3 decreases (4 - padLen % 4) % 4
